@@ -347,9 +347,14 @@ def sendClose (s : S) (code : Option Nat) (reason : Option Bytes) : S :=
 
 /-! ## closing -/
 
+/-- an orderly drop first hands the transport what is still in the send queue (chopped / synchronous writes),
+our close frame included -/
+def flushQueue (s : S) : S := { s with sendQueue := [], log := s.log ++ s.sendQueue.map Out.write }
+
 /-- `dropConnection(abort)` -/
 def dropConnection (s : S) (abort : Bool) : S :=
   if s.st ≠ .closed then
+    let s := if abort then s else flushQueue s
     let s := { s with droppedByMe := true, st := .closed }
     (s.emit .closedResolved).emit (.closeConn abort)
   else s
@@ -435,9 +440,14 @@ def reportClose (s : S) : S :=
     s.emit (.onClose false (some 1006) none s.notClean)
   else s.emit (.onClose true s.remoteCloseCode s.remoteCloseReason none)
 
+/-- `_connectionLost`: a completed closing handshake does not count as clean when what we queued for sending
+(chopped / synchronous writes) — our close frame is the last of it — never reached the transport -/
+def unsentUnclean (s : S) : S :=
+  if s.wasClean && !s.sendQueue.isEmpty then { s with wasClean := false } else s
+
 /-- `_connectionLost` -/
 def connectionLost (s : S) : S :=
-  if s.lost then s else reportClose (markClosed (cancelOnLost s))
+  if s.lost then s else reportClose (unsentUnclean (markClosed (cancelOnLost s)))
 
 /-! ## automatic ping/pong -/
 
